@@ -8,7 +8,7 @@ from contracts import common, estimators, driver
 
 def run(tier, seed):
     chk = Check("C03", tier, seed, "other", "./check C03 --tier " + tier)
-    chk.explanation = ("Proved (ideal arithmetic, two elements, all values symbolic): the driver statements extracted from example.py give "
+    chk.explanation = ("Proved (ideal arithmetic, all values symbolic; driver statements with two elements, the residual closure additionally for element lists of arbitrary length): the driver statements extracted from example.py give "
                        "rhs == -<M0u0,1_i> + <g,1_i>, mat rows = test / columns = trial, Phi solves the system, and the estimator's residual "
                        "equals sum_j Phi_j (V 1_j) + M0u0 - g pointwise with the same element order and a harmless causality skip; by linearity "
                        "of the element mean and the consistency contracts of C07/C01/C08 the residual has zero mean per element. Bounded: the "
@@ -28,6 +28,23 @@ def run(tier, seed):
         verify_contracts(eng, [c for c in driver.contracts if c.setup], chk)
     except GeneratorError as e:
         chk.error(str(e))
+    # the residual closure for element lists of arbitrary length (loop invariant over a recursive partial-sum spec function)
+    from contracts import residual_n
+    eng = common.new_engine(residual_n.contracts, "C03")
+    arrays.install(eng)
+    extio.install(eng)
+    residual_n.install(eng)
+    guarded(chk, 'proved part residual_n', verify_contracts, eng, [c for c in residual_n.contracts if c.setup], chk)
+    # the extracted driver statements for an element list of arbitrary length (callee contracts; the residual call is linked to
+    # the contract above through its arguments)
+    def driver_n():
+        eng2 = common.new_engine(residual_n.driver_contracts, "C03")
+        arrays.install(eng2)
+        extio.install(eng2)
+        residual_n.install_driver(eng2)
+        driver.extract_driver(eng2)
+        verify_contracts(eng2, [c for c in residual_n.driver_contracts if c.setup], chk)
+    guarded(chk, 'proved part driver_n', driver_n)
     from vlib import smt
     smt.close_pool()
     try:
